@@ -98,15 +98,17 @@ package ovsdb
 // one UUID (the first one's), and two inserts claiming one name with different
 // explicit UUIDs are an error.
 //@ pred NamedInsert(ops []Operation, i int) := ops[i].Op == "insert" && ops[i].UUIDName != ""
-//@ pred Pass1Done(ops []Operation) := (forall i: int :: 0 <= i && i < len(ops) ==> (ops[i].Op == old(ops[i].Op) && (ops[i].Op == "insert" ==> ops[i].UUIDName == ""))) && (forall i: int, j: int :: 0 <= i && i < j && j < len(ops) && old(NamedInsert(ops, i)) && old(NamedInsert(ops, j)) && old(ops[i].UUIDName) == old(ops[j].UUIDName) ==> (ops[i].UUID == ops[j].UUID && (old(ops[j].UUID) == "" || old(ops[j].UUID) == ops[i].UUID)))
+//@ pred Pass1Done(ops []Operation) := (forall i: int :: 0 <= i && i < len(ops) ==> (ops[i].Op == old(ops[i].Op) && ops[i].Table == old(ops[i].Table) && (ops[i].Op == "insert" ==> ops[i].UUIDName == ""))) && (forall i: int, j: int :: 0 <= i && i < j && j < len(ops) && old(NamedInsert(ops, i)) && old(NamedInsert(ops, j)) && old(ops[i].UUIDName) == old(ops[j].UUIDName) ==> (ops[i].UUID == ops[j].UUID && (old(ops[j].UUID) == "" || old(ops[j].UUID) == ops[i].UUID)))
+//@ pred TablesKnown(ops []Operation, schema *DatabaseSchema, n int) := forall i: int :: 0 <= i && i <= n && i < len(ops) ==> (ops[i].Table in schema.Tables)
 //@ func ExpandNamedUUIDs
 //@ requires schema != nil
+//@ ensures_ok TablesKnown(ops, schema, len(ops))
 //@ ensures_ok result0 == ops
 //@ ensures_ok forall i: int :: 0 <= i && i < len(ops) && ops[i].Op == "insert" ==> ops[i].UUIDName == ""
 //@ ensures_ok forall i: int, j: int :: 0 <= i && i < j && j < len(ops) && old(NamedInsert(ops, i)) && old(NamedInsert(ops, j)) && old(ops[i].UUIDName) == old(ops[j].UUIDName) ==> ops[i].UUID == ops[j].UUID
 //@ ensures_ok forall i: int, j: int :: 0 <= i && i < j && j < len(ops) && old(NamedInsert(ops, i)) && old(NamedInsert(ops, j)) && old(ops[i].UUIDName) == old(ops[j].UUIDName) && old(ops[j].UUID) != "" ==> old(ops[j].UUID) == ops[i].UUID
 //@ loop 1 invariant uuidMap != nil && fresh(uuidMap)
-//@ loop 1 invariant forall j: int :: 0 <= j && j < len(ops) ==> ops[j].Op == old(ops[j].Op)
+//@ loop 1 invariant forall j: int :: 0 <= j && j < len(ops) ==> (ops[j].Op == old(ops[j].Op) && ops[j].Table == old(ops[j].Table))
 //@ loop 1 invariant forall j: int :: rangeindex < j && j < len(ops) ==> (ops[j].UUIDName == old(ops[j].UUIDName) && ops[j].UUID == old(ops[j].UUID))
 //@ loop 1 invariant forall j: int :: 0 <= j && j <= rangeindex && ops[j].Op == "insert" ==> ops[j].UUIDName == ""
 //@ loop 1 invariant forall j: int :: 0 <= j && j <= rangeindex && old(NamedInsert(ops, j)) ==> ((old(ops[j].UUIDName) in uuidMap) && uuidMap[old(ops[j].UUIDName)] == ops[j].UUID && (old(ops[j].UUID) == "" || old(ops[j].UUID) == ops[j].UUID))
@@ -116,6 +118,12 @@ package ovsdb
 //@ loop 5 invariant Pass1Done(ops)
 //@ loop 6 invariant Pass1Done(ops)
 //@ loop 7 invariant Pass1Done(ops)
+//@ loop 2 invariant TablesKnown(ops, schema, rangeindex)
+//@ loop 3 invariant TablesKnown(ops, schema, rangeindex2 + 1)
+//@ loop 4 invariant TablesKnown(ops, schema, rangeindex2 + 1)
+//@ loop 5 invariant TablesKnown(ops, schema, rangeindex2 + 1)
+//@ loop 6 invariant TablesKnown(ops, schema, rangeindex2 + 1)
+//@ loop 7 invariant TablesKnown(ops, schema, rangeindex2 + 1)
 
 // ---- error.go (C12): typed error <-> wire result ---------------------------------
 
